@@ -91,7 +91,12 @@ void Connector::cancelRetryTimer()
 void Connector::stopInLoop()
 {
   loop_->assertInLoopThread();
-  cancelRetryTimer();
+  if (!connect_)
+  {
+    // (a stop() that a later connect() has superseded must leave the new
+    // cycle's timer alone; startCycleInLoop() removed the stale one)
+    cancelRetryTimer();
+  }
   if (state_ == kConnecting)
   {
     setState(kDisconnected);
